@@ -250,9 +250,13 @@ func c04Child(in json.RawMessage) (interface{}, error) {
 		end = rg.Sched.HoldNth(2+int(cs.Seed%3), func(p mon.Point) bool { return p.Role == "persister" && p.Name == "persist.begin" && p.Kind == ".snp" })
 	}
 	gateDone := false
-	tryGate := func() {
+	extraVer := 0
+	tryGate := func(batchInFlight bool) {
 		if begin == nil || gateDone {
 			return
+		}
+		if batchInFlight && cs.Gate == "merge-intro" {
+			return // batches never wait for the merger: handle this gate between two batches (see below)
 		}
 		if !begin.Reached(0) {
 			return
@@ -260,6 +264,38 @@ func c04Child(in json.RawMessage) (interface{}, error) {
 		gateDone = true
 		res.GateReached = true
 		recheck("before-" + cs.Gate)
+		if !batchInFlight && cs.Gate == "merge-intro" {
+			// the merge is built but not introduced: land a batch that deletes / updates documents (some of
+			// them in the segments under merge), take a reader AFTER that batch and hold it across the introduction
+			eb := &model.Batch{}
+			named := map[string]bool{}
+			for k := 0; k < 3; k++ {
+				id := fmt.Sprintf("k%d", r.Intn(7))
+				if named[id] {
+					continue
+				}
+				named[id] = true
+				if k%2 == 0 {
+					eb.Ops = append(eb.Ops, model.Op{Kind: "delete", ID: id})
+				} else {
+					extraVer++
+					eb.Ops = append(eb.Ops, model.Op{Kind: "update", ID: id, Doc: &model.Doc{ID: id, V: fmt.Sprintf("gate-%d", extraVer), Text: map[string]string{"t": "gate"}}})
+				}
+			}
+			if err := w.Batch(eb.ToBluge()); err != nil {
+				add("batch-error", err.Error())
+			} else {
+				cur = cur.Apply(eb)
+				res.Batches = append(res.Batches, eb)
+				for _, h := range held {
+					if h.kind == "current-root" {
+						h.kind = "superseded"
+					}
+				}
+				acquire(-1)
+				res.Steps["reader-taken-inside-merge-window"]++
+			}
+		}
 		begin.Release()
 		if end.Reached(3 * time.Second) {
 			recheck("after-" + cs.Gate)
@@ -282,7 +318,7 @@ func c04Child(in json.RawMessage) (interface{}, error) {
 				}
 				break WAIT
 			case <-time.After(2 * time.Millisecond):
-				tryGate()
+				tryGate(true)
 			}
 		}
 		cur = cur.Apply(b)
@@ -291,7 +327,7 @@ func c04Child(in json.RawMessage) (interface{}, error) {
 				h.kind = "superseded"
 			}
 		}
-		tryGate()
+		tryGate(false)
 		if bi == 3 || bi == 9 || bi == 16 {
 			acquire(bi + 1)
 		}
